@@ -19,9 +19,6 @@ import (
 	"fmt"
 	"io"
 	"net"
-	"os"
-	"path/filepath"
-	"strings"
 	"testing"
 	"time"
 
@@ -30,7 +27,6 @@ import (
 	"github.com/cbeuw/Cloak/internal/client"
 	"github.com/cbeuw/Cloak/internal/common"
 	"github.com/cbeuw/Cloak/internal/ecdh"
-	log "github.com/sirupsen/logrus"
 )
 
 type vfC17NullDialer struct{}
@@ -155,66 +151,10 @@ func vfC17F5Real(dir string) string {
 }
 
 func TestVerifC17(t *testing.T) {
-	in := os.Getenv("VERIF_IN")
-	out := os.Getenv("VERIF_OUT")
-	if in == "" || out == "" {
-		t.Skip("VERIF_IN / VERIF_OUT not set")
-	}
-	log.SetOutput(io.Discard)
-	data, err := os.ReadFile(in)
-	if err != nil {
-		t.Fatal(err)
-	}
-	fo, err := os.Create(out)
-	if err != nil {
-		t.Fatal(err)
-	}
-	defer fo.Close()
-	dir, err := os.MkdirTemp("", "vfc17")
-	if err != nil {
-		t.Fatal(err)
-	}
-	defer os.RemoveAll(dir)
-	dumpDir := os.Getenv("VERIF_DUMP")
-	if dumpDir == "" {
-		dumpDir = filepath.Dir(out)
-	}
-	fmt.Fprintf(fo, "#cfg patched=%s\n", vfC17B(vfC17Patched()))
-	stuck := 0
-	for _, ln := range strings.Split(string(data), "\n") {
-		f := strings.Fields(ln)
-		if len(f) == 0 {
-			continue
+	vfC17RunFile(t, func(dir, line string) string {
+		if line == "!f5real" {
+			return vfC17F5Real(dir)
 		}
-		if f[0] == "!f5real" {
-			fmt.Fprintln(fo, vfC17F5Real(dir))
-			continue
-		}
-		if len(f) < 5 {
-			continue
-		}
-		if stuck >= 3 {
-			fmt.Fprintf(fo, "%s SKIPPED-after-repeated-deadlocks\n", f[0])
-			continue
-		}
-		var now int64
-		fmt.Sscan(f[2], &now)
-		obs, replay, orphans, blocked, hang, sesInfo := vfC17RunScenario(dir, f[0], now, f[3], f[4:])
-		fmt.Fprintf(fo, "%s %s\n", f[0], strings.Join(obs, " "))
-		fmt.Fprintf(fo, "#replay %s %s %s %s %s\n", f[0], f[1], f[2], f[3], strings.Join(replay, " "))
-		fmt.Fprintf(fo, "#ses %s%s\n", f[0], sesInfo)
-		if len(orphans) > 0 {
-			fmt.Fprintf(fo, "#orph %s %s\n", f[0], strings.Trim(strings.Join(strings.Fields(fmt.Sprint(orphans)), ","), "[]"))
-		}
-		if len(blocked) > 0 {
-			stuck++
-			fmt.Fprintf(fo, "#blocked %s %s\n", f[0], strings.Trim(strings.Join(strings.Fields(fmt.Sprint(blocked)), ","), "[]"))
-		}
-		if hang != "" {
-			p := filepath.Join(dumpDir, "hang_"+f[0]+".txt")
-			os.WriteFile(p, []byte(hang), 0644)
-			fmt.Fprintf(fo, "#hang %s %s\n", f[0], p)
-		}
-	}
-	fo.Sync()
+		return "#unknown " + line
+	})
 }
